@@ -425,7 +425,22 @@ func runC16(x *X) *Violation {
 						desc += fmt.Sprintf(",#%d", (oi+k)%len(live))
 					}
 				}
+				// the operand list is the caller's (often a spread slice that owns spare capacity): Merge reads it, nothing more
+				if len(more) > 0 {
+					grown := make([]*z.StructSchema, len(more), len(more)+3)
+					copy(grown, more)
+					more = grown
+				}
+				before := append([]*z.StructSchema(nil), more...)
 				live = append(live, &c16live{real: src.real.Merge(other.real, more...), m: m})
+				for k := range before {
+					if more[k] != before[k] {
+						extArgBad = fmt.Sprintf("%s: operand %d of the list passed to Merge was replaced by the call", desc, k)
+					}
+				}
+				if tail := more[:cap(more)]; len(before) > 0 && tail[len(before)] != nil {
+					extArgBad = fmt.Sprintf("%s: Merge wrote into the spare capacity of the caller's operand list", desc)
+				}
 			case "test", "pt":
 				cbid++
 				cb := c16cb{ID: c*100 + cbid, Kind: op.Arg, Fail: op.ErrAt == 1 && op.Arg == "test"}
@@ -455,7 +470,11 @@ func runC16(x *X) *Violation {
 		x.R.InOp = false
 		x.Ops++
 		if extArgBad != "" {
-			return &Violation{Class: "C16/extend-modified-its-argument", Detail: extArgBad}
+			cls := "C16/extend-modified-its-argument"
+			if op.Arg == "merge" {
+				cls = "C16/merge-modified-its-operand-list"
+			}
+			return &Violation{Class: cls, Detail: extArgBad}
 		}
 		if builderPanic != "" {
 			return &Violation{Class: "C16/builder-call-panicked op=" + op.Arg, Detail: fmt.Sprintf("step %q: %s", desc, builderPanic)}
